@@ -14,7 +14,7 @@ handled separately by gates.py.  The analysis over-approximates: if an atom is a
 no data-flow path from that source to the value exists in the MIR."""
 from mir import Body, Program
 
-DEPTH = 3
+DEPTH = 6
 
 TRANSPARENT_ADT_PREFIX = (
     'std::result::Result::', 'std::option::Option::', 'std::ops::ControlFlow::',
@@ -66,6 +66,7 @@ class FnDep:
         self.val = {}           # node (local, path) -> set(atoms)
         self.defs = {}          # local -> list of ('assign', blk, stmt) | ('call', blk, term)
         self._alias = {}
+        self._alias_extra = {}   # local -> operands (indexes / keys) the aliased view additionally depends on
         self.closure_aggs = {}  # local -> agg rvalue (closure construction)
         self._collect_defs()
         self._solve()
@@ -114,10 +115,16 @@ class FnDep:
                         src = rv['op']['pl']
                     if src is not None and not any(p['k'] == 'index' for p in src.get('p', [])):
                         res = self.resolve_place(src, _depth + 1)
+                        if src['l'] in self._alias_extra:
+                            self._alias_extra[l] = self._alias_extra[src['l']]
                 elif kind == 'call' and not x['dst'].get('p'):
                     cal = x.get('callee') or ''
                     if cal in ALIAS_CALLS and x['args'] and x['args'][0]['k'] in ('copy', 'move'):
                         res = self.resolve_place(x['args'][0]['pl'], _depth + 1)
+                        ex = [a for a in x['args'][1:] if a['k'] in ('copy', 'move')]
+                        ex += self._alias_extra.get(x['args'][0]['pl']['l'], [])
+                        if ex:
+                            self._alias_extra[l] = ex
                     else:
                         tgt = self.eng.local_target(x)
                         if tgt is not None and tgt != self.body.path:
@@ -153,9 +160,12 @@ class FnDep:
                 out |= atoms
         return out
 
-    def read_place(self, pl):
+    def read_place(self, pl, _g=0):
         root, path = self.resolve_place(pl)
         out = self.read(root, path)
+        if _g < 4:
+            for ex in self._alias_extra.get(pl['l'], []):
+                out |= self.read_place(ex['pl'], _g + 1)
         # index operands contribute (x[i] depends on i)
         for p in pl.get('p', []):
             if p['k'] == 'index':
@@ -306,6 +316,8 @@ class FnDep:
             if arg['k'] in ('copy', 'move'):
                 root, ap = self.resolve_place(arg['pl'])
                 out = self.read(root, ap + path)
+                for ex in self._alias_extra.get(arg['pl']['l'], []):
+                    out |= self.read_place(ex['pl'])
                 for p in arg['pl'].get('p', []):
                     if p['k'] == 'index':
                         r2, p2 = self.base(p['l'])
@@ -405,6 +417,8 @@ class FnDep:
             if p['k'] == 'index':
                 r2, p2 = self.base(p['l'])
                 base |= self.read(r2, p2)
+        for ex in self._alias_extra.get(src['l'], []):
+            base |= self.read_place(ex['pl'])
         ch |= self.write(root, path, base)
         return ch
 
